@@ -49,7 +49,9 @@ func WithStack(err error) error {
 	}
 	// use noError in case anything along err's chain has a custom Is that calls Error() for some
 	// reason.
-	if errors.Is(err, withStack{inner: noError}) {
+	// errors.Is cannot find a withStack because the type is not comparable, so look for it by type.
+	var alreadyHasStack withStack
+	if errors.As(err, &alreadyHasStack) {
 		return err
 	}
 	var buf [64]uintptr
